@@ -125,3 +125,17 @@ def stats(cases, impl):
             "view_cases": sum(c.startswith("V") for c in cases),
             "view_equal_true": sum(1 for l in impl if l.startswith("eq=true")),
             "view_equal_false": sum(1 for l in impl if l.startswith("eq=false"))}
+
+
+def extra_coverage(ctx):
+    """thorough tier: independent re-check of the WHOLE development (every Properties_*.vo and what it depends on)
+    with coqchk, and the axiom summary it prints"""
+    if ctx.tier != "thorough":
+        return {}
+    mods = sorted("Zix." + f[:-3] for f in os.listdir(vlib.COQ) if f.startswith("Properties_") and f.endswith(".vo"))
+    rc, out, err = vlib.sh(["coqchk", "-o", "-silent", "-Q", ".", "Zix"] + mods, cwd=vlib.COQ, timeout=3000)
+    summary = out[out.find("CONTEXT SUMMARY"):] if "CONTEXT SUMMARY" in out else (out + err)[-1500:]
+    if rc != 0:
+        ctx.broken.append("coqchk: rc=%d %s" % (rc, (out + err)[-300:]))
+        ctx.report_violation({"what": "coqchk rejected the compiled development", "log": (out + err)[-3000:]}, no_input=True)
+    return {"coqchk_modules": mods, "coqchk_rc": rc, "coqchk_summary": " ".join(summary.split())[:1500]}
